@@ -1,6 +1,7 @@
 From Coq Require Import Extraction ExtrOcamlBasic.
 From PV Require Import Lib.ExtractBase Lib.AmmoBytes Lib.AmmoDecimal Lib.AmmoLines Model.AmmoCommon
-  Model.AmmoUri Model.AmmoUripost Model.AmmoRaw Model.AmmoJson Model.AmmoRobust Model.AmmoConfigInput.
+  Model.AmmoUri Model.AmmoUripost Model.AmmoRaw Model.AmmoJson Model.AmmoRobust Model.AmmoConfigInput
+  Model.AmmoJsonReject Model.AmmoVarSource.
 Extraction Language OCaml.
 Extraction "extracted/C13_model.ml" xb_types max_token cfg0 build cycle_take
   uri_decode render_uri uri_entries wf_uitem
@@ -9,4 +10,6 @@ Extraction "extracted/C13_model.ml" xb_types max_token cfg0 build cycle_take
   json_stream_decode json_array_decode entity_entry
   parse_shoot_name convert spread_counts extract_index property_resolve rand_string_alloc
   mp_reads grpc_decode decode_header header_set GET rand_int_range
-  config_headers provider_new_headers header_entry_okb header_list_okb scenario_weights scenario_requests.
+  config_headers provider_new_headers header_entry_okb header_list_okb scenario_weights scenario_requests
+  json_provider good_prefix entity_okb
+  csv_source rows_spec init_sources.
